@@ -661,9 +661,9 @@ func (f *Frame) execAppend(c *ssa.CallCommon, args []Val, st *State) Val {
 	q := fmt.Sprintf("q%d_j", u.qctr)
 	qj := Term{q, SInt}
 	oldElem := Select(Select(arr, App("s_arr", SInt, s)), App("sl_idx", SInt, s, qj))
-	fact := fmt.Sprintf("(forall ((%s Int)) (and (=> (and (<= 0 %s) (< %s %s)) (= (select %s %s) %s)) (=> (and (<= %s %s) (< %s %s)) (= (select %s %s) %s))))",
+	fact := fmt.Sprintf("(forall ((%s Int)) (! (and (=> (and (<= 0 %s) (< %s %s)) (= (select %s %s) %s)) (=> (and (<= %s %s) (< %s %s)) (= (select %s %s) %s))) :pattern ((select %s %s))))",
 		q, q, q, oldLen.S, content.S, q, oldElem.S,
-		oldLen.S, q, q, newLen.S, content.S, q, addElem(App("-", SInt, qj, oldLen)).S)
+		oldLen.S, q, q, newLen.S, content.S, q, addElem(App("-", SInt, qj, oldLen)).S, content.S, q)
 	u.assume(st, Term{fact, SBool})
 	u.heapSet(st, class, u.defs.Define("H_"+class, Store(arr, addr, content)))
 	capT := u.defs.Fresh("appcap", SInt)
